@@ -36,6 +36,7 @@ structure OpTable where
   findlabels : Str
   findlinestarts : Str
   instrSize : List Nat
+  hasArgProbe : List Bool
   argFmt : List Str
   deriving Repr
 
@@ -81,7 +82,9 @@ def verLt (v : Nat × Nat) (a b : Nat) : Bool := !verGe v a b
 
 namespace OpTable
 def opnameOf (t : OpTable) (op : Nat) : Str := t.opname.getD op []
-def hasArg (t : OpTable) (op : Nat) : Bool := op ≥ t.haveArgument
+/-- `op_has_argument(op, opc)` -/
+def hasArg (t : OpTable) (op : Nat) : Bool :=
+  if verGe t.version 3 13 then (t.hasarg.getD []).contains op else op ≥ t.haveArgument
 def isJrel (t : OpTable) (op : Nat) : Bool := t.jrelOps.contains op
 def isJabs (t : OpTable) (op : Nat) : Bool := t.jabsOps.contains op
 /-- `instruction_size(op, opc)` -/
